@@ -40,6 +40,10 @@ pub enum Op {
     /// `advance(usize::MAX - back)`
     AdvanceHuge(u16),
     AdvanceWithBufTooFar(u64),
+    /// `set_chunk_size(usize::MAX - back)`: legal to call; the next refill cannot succeed and
+    /// panics (capacity overflow / slice index / arithmetic overflow). The panic is caught; the
+    /// exposed window must be what it was. A later `SetChunk` restores a usable size.
+    SetChunkAbsurd(u16),
 }
 
 impl Op {
@@ -352,6 +356,10 @@ pub fn run_history(h: &History, which: Oracles, prop: &str) -> Result<RunStats, 
                 unsafe { reader.advance_unchecked(adv_n) };
                 R::Unit
             }
+            Op::SetChunkAbsurd(back) => {
+                reader.set_chunk_size(usize::MAX - *back as usize);
+                R::Unit
+            }
             Op::SetMark => {
                 reader.set_mark();
                 R::Unit
@@ -391,6 +399,10 @@ pub fn run_history(h: &History, which: Oracles, prop: &str) -> Result<RunStats, 
                 } else if lied && msg.contains("invariant of std::io::Read trait violated") {
                     st.caught_panics += 1;
                     st.overreport_panics += 1;
+                    panicked_before = true;
+                } else if m.chunk > usize::MAX / 2 {
+                    // a refill with an absurd chunk size: any panic is acceptable, the state is not
+                    st.caught_panics += 1;
                     panicked_before = true;
                 } else if op.is_hostile() {
                     // Panicked, but not with the documented message (e.g. an arithmetic overflow
@@ -496,6 +508,9 @@ pub fn run_history(h: &History, which: Oracles, prop: &str) -> Result<RunStats, 
             (Op::SetChunk(c), _) => {
                 m.chunk = (*c).max(1);
             }
+            (Op::SetChunkAbsurd(back), _) => {
+                m.chunk = usize::MAX - *back as usize;
+            }
             (Op::CheckIoError, R::Checked(r)) => {
                 if which.window {
                     match (&r, m.error_parked) {
@@ -540,7 +555,7 @@ pub fn run_history(h: &History, which: Oracles, prop: &str) -> Result<RunStats, 
         // result; a refill that finds the cursor more than two chunks into the buffer realigns.
         let refills = new_data + terminal_now as u64;
         for _ in 0..refills {
-            if m.in_buf > 2 * m.chunk {
+            if m.in_buf > m.chunk.saturating_mul(2) {
                 m.in_buf = 0;
                 st.realigns += 1;
                 realign_seen_since_mark = true;
@@ -656,6 +671,7 @@ pub fn op_strategy(hostile: bool) -> BoxedStrategy<Op> {
             1 => prop_oneof![Just(0u64), 0u64..=1000, Just(u64::MAX / 2)].prop_map(Op::AdvanceTooFar),
             1 => (0u16..=300).prop_map(Op::AdvanceHuge),
             1 => prop_oneof![Just(0u64), 0u64..=1000].prop_map(Op::AdvanceWithBufTooFar),
+            1 => prop_oneof![0u16..=3, Just(100u16), Just(20_000u16)].prop_map(Op::SetChunkAbsurd),
         ]
         .boxed()
     } else {
